@@ -70,11 +70,15 @@ async fn store_zarr_chunk_async(array: Array, data: Chunk, chain_chunk_index: u6
     }
 
     if let SampleBufferValue::String(v) = data.values {
-        let start = vec![
+        // the trailing dimensions of a vector-valued string variable are written in full
+        let extra_dims = array.shape().get(2..).unwrap_or(&[]).to_vec();
+        let mut start = vec![
             chain_chunk_index,
             data.chunk_idx as u64 * data.full_at as u64,
         ];
-        let shape = vec![1u64, data.len as u64];
+        start.extend(extra_dims.iter().map(|_| 0u64));
+        let mut shape = vec![1u64, data.len as u64];
+        shape.extend(extra_dims);
         let subset = ArraySubset::new_with_start_shape(start, shape)
             .context("Failed to build string chunk subset")?;
         return array
